@@ -47,3 +47,61 @@ Theorem C19_iri_at_most_two_entry_rows :
     encode_iri iri t = Ok (t', rows, p, n) -> (length rows <= 2)%nat.
 Proof. exact iri_rows_bounded. Qed.
 Print Assumptions C19_iri_at_most_two_entry_rows.
+
+(* ---------------------------------------------------------------------------------------------
+   The whole-stream statement.  [Audit.audit] is the extracted function the check runs over every
+   byte string pyjelly writes: it replays the rows through the referee and counts redundant lookup
+   entries (string already resident in the reader's table), missed elisions (a term written although
+   equal to the previous statement's term in that slot), missed zero forms (an explicit entry id /
+   prefix id / name id where the zero form means the same) and graphs opened twice in a row.
+   For the generic serializers over inputs in normal form, all four counters are zero on everything
+   an accepted run emits -- TRIPLES, QUADS and GRAPHS streams, declarations on or off, any flow,
+   frame size and table sizes.  [stmts_nrm]: every API term t satisfies norm t = t (a literal typed
+   xsd:string and the same plain literal are different API terms with one wire form; mixing the two
+   spellings is the only way to make the writer re-send an equal term).
+   --------------------------------------------------------------------------------------------- *)
+From PJ.Model Require Import Streams Spec Audit.
+From PJ.Proofs Require Import EncStream AuditBase AudStmt AudStream.
+
+Theorem C19_triples_stream_audit_clean :
+  forall (o : soptions) (s s' : stream) (d : sdata) (evs : list tev),
+    stream_new TripleStream Generic o = Ok s -> cfg_ok o (st_logical s) -> fl_rows (st_flow s) = [] ->
+    stmts_nrm (d_stmts d) ->
+    triples_stream_frames d s = (s', evs) -> raised evs = None ->
+    exists c, audit (flat_map f_rows (emitted evs)) = Some c /\ clean c.
+Proof. exact triples_stream_clean. Qed.
+Print Assumptions C19_triples_stream_audit_clean.
+
+Theorem C19_quads_stream_audit_clean :
+  forall (o : soptions) (s s' : stream) (d : sdata) (evs : list tev),
+    stream_new QuadStream Generic o = Ok s -> cfg_ok o (st_logical s) -> fl_rows (st_flow s) = [] ->
+    stmts_nrm (d_stmts d) ->
+    quads_stream_frames d s = (s', evs) -> raised evs = None ->
+    exists c, audit (flat_map f_rows (emitted evs)) = Some c /\ clean c.
+Proof. exact quads_stream_clean. Qed.
+Print Assumptions C19_quads_stream_audit_clean.
+
+Theorem C19_graphs_stream_audit_clean :
+  forall (o : soptions) (s s' : stream) (d : sdata) (evs : list tev),
+    stream_new GraphStream Generic o = Ok s -> cfg_ok o (st_logical s) -> fl_rows (st_flow s) = [] ->
+    stmts_nrm (d_stmts d) ->
+    graphs_stream_frames_generic d s = (s', evs) -> raised evs = None ->
+    exists c, audit (flat_map f_rows (emitted evs)) = Some c /\ clean c.
+Proof. exact graphs_stream_clean. Qed.
+Print Assumptions C19_graphs_stream_audit_clean.
+
+(* what "clean" says, spelled out *)
+Theorem C19_clean_means :
+  forall c : counters, clean c <-> (c_redundant c = 0 /\ c_elision c = 0 /\ c_zero c = 0 /\ c_gstart c = 0)%N.
+Proof. exact clean_means. Qed.
+Print Assumptions C19_clean_means.
+
+(* the converse mirror behind "no redundant entry": a string the writer does not hold is nowhere in
+   the reader's table, so a lookup miss never re-sends a resident string *)
+From PJ.Proofs Require Import EncLookup.
+Theorem C19_miss_means_not_resident :
+  forall (tb tb' : slenc) (keys keys' : list str) (k : str) (id : N) (T : table) (la : N),
+    InvT tb T la -> entry_index tb keys k = Ok (tb', keys', Some id) ->
+    resident k T = false /\ (id = 0 \/ id <> la + 1)%N.
+Proof. exact entry_index_audit. Qed.
+Print Assumptions C19_miss_means_not_resident.
